@@ -243,13 +243,7 @@ impl TryFrom<&str> for FeelDateTime {
                         if let Ok(min) = min_match.as_str().parse::<u8>() {
                           if let Some(sec_match) = captures.name("seconds") {
                             if let Ok(sec) = sec_match.as_str().parse::<u8>() {
-                              let mut fractional = 0.0;
-                              if let Some(frac_match) = captures.name("fractional") {
-                                if let Ok(frac) = frac_match.as_str().parse::<f64>() {
-                                  fractional = frac;
-                                }
-                              }
-                              let nanos = (fractional * 1e9).trunc() as u64;
+                              let nanos = captures.name("fractional").map_or(0, |frac_match| fraction_to_nanos(frac_match.as_str()));
                               if is_valid_date(year, month, day) {
                                 let date = FeelDate::new(year, month, day);
                                 if let Some(zone) = FeelZone::from_captures(&captures) {
@@ -427,13 +421,7 @@ fn parse_time_literal(s: &str) -> Result<FeelTime> {
           if let Ok(min) = min_match.as_str().parse::<u8>() {
             if let Some(sec_match) = captures.name("seconds") {
               if let Ok(sec) = sec_match.as_str().parse::<u8>() {
-                let mut fractional = 0.0;
-                if let Some(frac_match) = captures.name("fractional") {
-                  if let Ok(frac) = frac_match.as_str().parse::<f64>() {
-                    fractional = frac;
-                  }
-                }
-                let nanos = (fractional * 1e9).trunc() as u64;
+                let nanos = captures.name("fractional").map_or(0, |frac_match| fraction_to_nanos(frac_match.as_str()));
                 if let Some(zone) = FeelZone::from_captures(&captures) {
                   if is_valid_time(hour, min, sec) {
                     return Ok(FeelTime(hour, min, sec, nanos, zone));
@@ -632,6 +620,13 @@ fn get_zone_offset(zone_name: &str, date: (i32, u32, u32), time: (u32, u32, u32,
     }
   }
   None
+}
+
+/// Converts the fractional part of seconds, written as a decimal point followed
+/// by digits, into nanoseconds. Digits beyond the ninth are cut off.
+fn fraction_to_nanos(fractional: &str) -> u64 {
+  let digits: String = fractional.chars().skip(1).chain(std::iter::repeat('0')).take(9).collect();
+  digits.parse::<u64>().unwrap_or(0)
 }
 
 /// Converts the number of nanoseconds into textual form, the trailing zeros a stripped.
